@@ -346,6 +346,9 @@ def judge(driver, tier, seed, merged, wall):
 
     rdir = os.path.join(ROOT, 'replays', prop)
     os.makedirs(rdir, exist_ok=True)
+    for old in os.listdir(rdir):          # replays describe this run only
+        if old.endswith('.json'):
+            os.unlink(os.path.join(rdir, old))
     lines = []
     seen_f = {}
     for v, f in known:
